@@ -291,6 +291,7 @@ pub fn build(t: &Term, w: &W) -> O {
       let _ = &tok;
       a
     }),
+    "from_result" => observables::from_result(if t.b == 0 { Ok(a) } else { Err(a) }),
     "empty" => observables::empty(),
     "never" => observables::never(),
     "error" => observables::error(err(a)),
